@@ -142,7 +142,20 @@ pub struct Case<'a> {
 
 pub fn check_case(ctx: &mut Ctx, env: &mut Env, c: &Case) {
     let area = c.tcp.opt_area();
-    let frame = pkt::build(c.link, c.ip, c.tcp);
+    let mut frame = pkt::build(c.link, c.ip, c.tcp);
+    // link-layer trailer: a fifth of the Ethernet frames carry octets after the IP datagram
+    // (minimum-frame padding, a captured FCS); the datagram ends where its length field says
+    let trailer = {
+        let h = crate::pool::fnv(&frame);
+        if matches!(c.link, Link::Ethernet | Link::EthernetMac(..)) && h % 5 == 0 {
+            let n = 1 + (h >> 8) as usize % 9;
+            let fill = if (h >> 16) % 2 == 0 { 0u8 } else { (h >> 24) as u8 };
+            frame.extend(std::iter::repeat(fill).take(n));
+            n
+        } else {
+            0
+        }
+    };
     let v4 = c.ip.is_v4();
     let r = tcpref::ref_sig(c.ip, c.tcp, &area, true);
     let d = tcpref::ref_sig(c.ip, c.tcp, &area, false);
@@ -153,7 +166,7 @@ pub fn check_case(ctx: &mut Ctx, env: &mut Env, c: &Case) {
     let res = env.analyze(&frame);
     let detail = |extra: serde_json::Value| {
         json!({
-            "case": c.tag, "frame_hex": hex(&frame), "link": format!("{:?}", c.link),
+            "case": c.tag, "frame_hex": hex(&frame), "link": format!("{:?}", c.link), "link_trailer_octets": trailer,
             "role": format!("{role:?}"), "expected_sig": r.text(), "extra": extra,
         })
     };
